@@ -1,7 +1,7 @@
 """determinism engine: C04 (encoding is deterministic) -- see coq/Props/C04.v"""
 DET_TB = ["coq/Model/HashOrder.v (+ Model/Lowering.v, Model/Types.v, Model/Reindex.v it builds on): hand-written models of the hash maps of the "
           "encode path with the iteration order as an explicit parameter",
-          "coq/Model/HashIterSites.v: hand-written status (OrderFree why / OrderDependent class / OffPath why) of every generated iteration site; "
+          "coq/Model/HashIterSites.v: hand-written status (OrderFree why / OrderDependent class / OffPath why; no OrderDependent site since the repair of D11) of every generated iteration site; "
           "the reasons that do not name a theorem are arguments by reading",
           "translator/src/hashiter.rs: the syntactic (taint) over-approximation of 'expression of a HashMap / HashSet type' and the list of files "
           "taken to be the encode path (src/ir/module/*.rs, src/ir/function.rs, src/ir/types.rs, src/ir/wrappers.rs, src/ir/helpers.rs)",
@@ -15,9 +15,9 @@ PROPS = {
         check_targets=["Check/CheckDeterm.vo"],
         proof_targets=["Props/C04.vo"],
         theorems=[("C04", "C04_ron_modes_commute"), ("C04", "C04_ron_entries_permutation"), ("C04", "C04_ron_any_order"),
-                  ("C04", "C04_roe_single_key"), ("C04", "C04_mapping_lookup_order_free"), ("C04", "C04_types_map_order"),
-                  ("C04", "C04_partial_types"), ("C04", "C04_types_map_order_refuted"), ("C04", "C04_inventory"),
-                  ("C04", "C04_outside_D11_at_most_once"), ("C04", "C04_checker_sound")],
+                  ("C04", "C04_roe_single_key"), ("C04", "C04_mapping_lookup_order_free"), ("C04", "C04_sort_ids_canonical"),
+                  ("C04", "C04_types_map_order"), ("C04", "C04_partial_types"), ("C04", "C04_types_map_order_refuted"),
+                  ("C04", "C04_inventory"), ("C04", "C04_outside_D11_at_most_once"), ("C04", "C04_checker_sound")],
         quick=dict(n=300), thorough=dict(n=5000), per_shard=1250,
         # the same flags in both tiers (./check has no per-tier flags): the harness takes k = 16 when n >= 5000
         harness_flags=["--k", "4", "--k-thorough", "16", "--thorough-n", "5000", "--batch", "25"],
@@ -33,27 +33,29 @@ PROPS = {
              "between parse and encode; distinct by hash of the case term",
         level_text="Coq proofs, for all inputs and ALL iteration orders: the inner map of resolve_on_end (keys Before / After) resolves to the same "
                    "flags in any order (permutation theorem over distinct modes; Lowering.resolve_pend2 is what every order computes); "
-                   "resolve_on_else_or_end has a single key; the id maps answer lookups independently of their arrangement; the dedup map that "
-                   "ModuleTypes::new builds by iterating a HashMap answers every request for a type the input has at most once with the same id "
-                   "under any two orders, also over sequences of additions (returned ids and emitted type section) -- and a vm_compute witness that "
-                   "it does not for a type the input has twice (D11). A vm_compute inventory theorem over Gen/GenHashIter.v, regenerated from "
-                   "/repo/src on every run: the classified iterations / hash-typed declarations are exactly the generated ones, there is no clock, "
-                   "thread, environment, RandomState or pointer-cast use, and the only order-dependent iteration is class 11. The prediction "
-                   "'deterministic unless the D11 predicate holds on the input' is compared in Coq with k-process runs of the real encoder.",
-        level_note="Partial: the property itself is false (D11). There is no byte-level model of the encoder: the theorems cover each hash-order "
-                   "dependent step separately and the inventory theorem says there is no other one in the listed files; that the steps compose is "
-                   "checked by the k-process runs only. Not covered: nondeterminism from outside those files (wasm-encoder, wasmparser, std), "
-                   "component encoding (src/ir/component.rs has no HashMap), debug builds (the harness builds in release mode), the public "
-                   "accessor ModuleTypes::iter (hash order is handed to the caller), and the flag field current_mode, whose final value depends "
-                   "on the visiting order but is not read by the encoder. Trusted: Coq kernel + vm_compute; the harness (generator, process "
-                   "spawning, hashing); the translator's taint over-approximation; the one-line OrderFree / OffPath reasons that are arguments by "
-                   "reading; that sampled agreement extends to unsampled inputs.",
+                   "resolve_on_else_or_end has a single key; the id maps answer lookups independently of their arrangement; ModuleTypes::new "
+                   "collects the keys of the HashMap of parsed types, sorts them and fills the dedup map in ascending id order: every visiting "
+                   "order sorts to the same list, so the dedup map, every returned id and every sequence of additions are the same under any two "
+                   "orders -- unconditionally, also when the input has structurally equal types (D11, repaired; the old witness is kept with what "
+                   "the repaired code does on it). A vm_compute inventory theorem over Gen/GenHashIter.v, regenerated from /repo/src on every "
+                   "run: the classified iterations / hash-typed declarations are exactly the generated ones, none is order-dependent, and there "
+                   "is no clock, thread, environment, RandomState or pointer-cast use. The prediction 'deterministic' is compared in Coq with "
+                   "k-process runs of the real encoder; any nondeterministic case is a violation.",
+        level_note="There is no byte-level model of the encoder: the theorems cover each hash-order dependent step separately and the inventory "
+                   "theorem says there is no other one in the listed files; that the steps compose is checked by the k-process runs only. Not "
+                   "covered: nondeterminism from outside those files (wasm-encoder, wasmparser, std), component encoding (src/ir/component.rs has "
+                   "no HashMap), debug builds (the harness builds in release mode), the public accessor ModuleTypes::iter (hash order is handed "
+                   "to the caller), and the flag field current_mode, whose final value depends on the visiting order but is not read by the "
+                   "encoder. Trusted: Coq kernel + vm_compute; the harness (generator, process spawning, hashing); the translator's taint "
+                   "over-approximation; the one-line OrderFree / OffPath reasons that are arguments by reading; that sampled agreement extends "
+                   "to unsampled inputs.",
         design_ref="5/C04",
         technique="Coq proofs over hand-written order-parametrised models + generated HashMap-iteration inventory (syn) + k-process differential runs evaluated in Coq",
         trusted_base=DET_TB,
         modelled="resolve_bodies / the resolve_on_end and resolve_on_else_or_end loops of resolve_special_instrumentation, get_mapping_generic lookups, "
-                 "ModuleTypes::new / add_type (through Model/Types.v)",
+                 "ModuleTypes::new (keys, sort, ascending insertion) / add_type (through Model/Types.v)",
         assumptions=["a HashMap iteration visits every key exactly once; two iterations of maps with the same keys may visit them in any two orders",
+                     "the keys of the HashMap of parsed types are 0 .. n-1 (both insertion sites use key = len); sort_unstable on distinct keys is modelled by insertion sort",
                      "structural equality of function types over i32/i64/f32/f64 is what the harness' type tokens compare (what Types' Hash / PartialEq compare, tag excluded)",
                      "two encodings are taken to be equal when their two 64-bit hashes and their status (encoded / panicked at which stage) are equal",
                      "a child process that dies without reporting puts the case outside the domain (none observed); a spawn failure fails the run"],
